@@ -311,7 +311,10 @@ impl SessionManagerEngaged {
         let session_transcript_bytes =
             Tag24::new(session_transcript.clone()).map_err(Error::Tag24CborEncoding)?;
 
-        let e_device_key = p256::SecretKey::from_bytes(FieldBytes::from_slice(&self.e_device_key))?;
+        let e_device_key = p256::SecretKey::from_bytes(
+            &FieldBytes::from_exact_iter(self.e_device_key.iter().copied())
+                .ok_or_else(|| anyhow::anyhow!("stored ephemeral device key has the wrong length"))?,
+        )?;
 
         let shared_secret = get_shared_secret(e_reader_key.into_inner(), &e_device_key.into())
             .map_err(Error::SharedSecretGeneration)?;
